@@ -739,7 +739,11 @@ func init() {
 	Registry["C20"] = &Family{
 		Gen: func(g GenCtx) interface{} {
 			if g.Idx%4 == 3 {
-				return &C20Mix{Join: genJoin(g, generatedJoins[(g.Idx/4)%len(generatedJoins)])}
+				j := genJoin(g, generatedJoins[(g.Idx/4)%len(generatedJoins)])
+				if j.Kind != "ingress-service" && g.Rng.Intn(2) == 0 {
+					addDecisiveBurst(g.Rng, j) // the same decisive ordering scenario for every generated join
+				}
+				return &C20Mix{Join: j}
 			}
 			return &C20Mix{Diff: genC20(g).(*Diff)}
 		},
